@@ -285,7 +285,7 @@ pub fn check(c: &Case) -> Verdict {
         classes.push(format!("finals-at-kill={}", out.final_files().len()));
     }
     let sample = serde_json::json!({"callback": c.cb.cli(), "fault": format!("{:?}", c.fault), "range": format!("{}..={}", s, e), "limit": limit, "largest_output": max_size, "fired": fired, "exit": out.code, "signal": out.signal, "files_after": out.files.iter().map(|(n, v)| format!("{}:{}", n, v.len())).collect::<Vec<_>>()});
-    Verdict::Pass(Pass { nontrivial: fired, key: vpmodel::hashes::fnv64(format!("{}|{:?}|{}|{}|{}", c.cb.cli(), c.fault, s, e, nb).as_bytes()), classes, known: vec![], sub_evals: 2, sample: Some(sample) })
+    Verdict::Pass(Pass { nontrivial: fired, key: vpmodel::hashes::fnv64(format!("{}|{:?}|{}|{}|{}", c.cb.cli(), c.fault, s, e, nb).as_bytes()), classes, known: vec![], sub_evals: 2, sample: Some(sample), extra_keys: vec![] })
 }
 
 fn fixed_chain(seed: u64, nblocks: usize, fat: bool) -> ChainSpec {
